@@ -86,6 +86,23 @@ Theorem C02_unbounded_together_abs :
      <-> (forall K, exists sigma, sat_linear L sigma /\ strictly_better (m_dir m) (lin_objective L sigma) K)).
 Proof. exact compile_abs_unbounded_iff. Qed.
 
+(* ---- the same three answers on the affine fragment *)
+Theorem C02_answers_affine :
+  forall (m : model) (L : linmodel), affine_model m -> compile m = inr L ->
+    ((exists rho, sat_model m rho) <-> (exists sigma, sat_linear L sigma)) /\
+    ((forall K, exists rho w, sat_model m rho /\ ev rho (m_obj m) = Some w /\ strictly_better (m_dir m) w K)
+     <-> (forall K, exists sigma, sat_linear L sigma /\ strictly_better (m_dir m) (lin_objective L sigma) K)) /\
+    forall v,
+    (((exists rho, sat_model m rho /\ ev rho (m_obj m) = Some v) /\
+      forall rho w, sat_model m rho -> ev rho (m_obj m) = Some w -> better_eq (m_dir m) v w)
+     <->
+     ((exists sigma, sat_linear L sigma /\ lin_objective L sigma = v) /\
+      forall tau, sat_linear L tau -> better_eq (m_dir m) v (lin_objective L tau))).
+Proof.
+  intros m L AM HC. split; [exact (compile_affine_feasible_iff m L AM HC)|]. split; [exact (compile_affine_unbounded_iff m L AM HC)|].
+  intros v. exact (compile_affine_optimal_value m L v AM HC).
+Qed.
+
 (* ---- proved: for an affine objective the linear objective (coefficients and constant offset) equals the
    source objective at every real assignment, whatever the direction *)
 Theorem C02_affine_objective_partial :
@@ -112,5 +129,6 @@ Print Assumptions C02_optimum_abs_converse.
 Print Assumptions C02_optimal_value_abs.
 Print Assumptions C02_feasible_together_abs.
 Print Assumptions C02_unbounded_together_abs.
+Print Assumptions C02_answers_affine.
 Print Assumptions C02_affine_objective_partial.
 Print Assumptions C02_abs_onesided_partial.
